@@ -37,6 +37,9 @@ func c20Compare(cs *mon.Case, sp *saml2.SAMLServiceProvider, enc string, logout 
 }
 
 func c20CompareKeyed(cs *mon.Case, sp *saml2.SAMLServiceProvider, enc string, logout bool, shape string) {
+	var how string
+	enc, how = c20Present(cs.Rand(), enc)
+	cs.Note("presentation=%s", how)
 	var val, pre preFields
 	var verr, perr error
 	pv, stack := mon.Guard(func() {
@@ -105,6 +108,39 @@ func c20CompareKeyed(cs *mon.Case, sp *saml2.SAMLServiceProvider, enc string, lo
 	}
 }
 
+// c20Present re-spells the encoded message the way transports do (line folding, a trailing newline, '+' turned
+// into a space by form decoding, the URL-safe alphabet, dropped padding): whichever spelling validation accepts,
+// the unverified decoders must accept too.
+func c20Present(r *rand.Rand, enc string) (string, string) {
+	switch r.IntN(24) {
+	case 0:
+		var b strings.Builder
+		w := pick(r, []int{64, 76, 1})
+		for i := 0; i < len(enc); i += w {
+			b.WriteString(enc[i:min(len(enc), i+w)])
+			b.WriteString(pick(r, []string{"\n", "\r\n"}))
+		}
+		return b.String(), "folded"
+	case 1:
+		return enc + pick(r, []string{"\n", "\r\n", " ", "\t"}), "trailing-whitespace"
+	case 2:
+		if strings.Contains(enc, "+") {
+			return strings.ReplaceAll(enc, "+", " "), "plus-as-space"
+		}
+	case 3:
+		if strings.ContainsAny(enc, "+/") {
+			return strings.NewReplacer("+", "-", "/", "_").Replace(enc), "url-safe-alphabet"
+		}
+	case 4:
+		if strings.HasSuffix(enc, "=") {
+			return strings.TrimRight(enc, "="), "padding-dropped"
+		}
+	case 5:
+		return " " + enc, "leading-space"
+	}
+	return enc, "as-encoded"
+}
+
 // shapeRoot rewrites the start of an unsigned-root document with attacker-chosen root features.
 func shapeRoot(r *rand.Rand, doc string) (string, string) {
 	i := strings.Index(doc, "<samlp:Response")
@@ -116,7 +152,7 @@ func shapeRoot(r *rand.Rand, doc string) (string, string) {
 	issOpen := strings.Index(rest, "<saml:Issuer>")
 	issClose := strings.Index(rest, "</saml:Issuer>")
 	kinds := []string{"dup-id-around-prefixed", "dup-dest-around-prefixed", "dup-id", "dup-destination", "dup-inresponseto", "prefixed-id", "prefixed-destination", "attr-refs", "attr-whitespace", "two-issuers", "two-issuers-rev", "foreign-issuer-first", "foreign-issuer-last",
-		"nested-issuer", "no-root-issuer", "issuer-comment", "issuer-cdata", "issuer-refs", "issuer-attrs", "bom", "doctype", "leading-stuff", "decl-utf8", "decl-latin1", "decl-utf16-label", "decl-ascii", "decl-standalone", "version-dup", "xml-attrs", "trailing-stuff"}
+		"nested-issuer", "no-root-issuer", "empty-issuer", "empty-issuer-selfclosed", "empty-issuer-blank", "empty-issuer", "issuer-comment", "issuer-cdata", "issuer-refs", "issuer-attrs", "bom", "doctype", "leading-stuff", "decl-utf8", "decl-latin1", "decl-utf16-label", "decl-ascii", "decl-standalone", "version-dup", "xml-attrs", "trailing-stuff"}
 	k := kinds[r.IntN(len(kinds))]
 	pre := ""
 	switch k {
@@ -171,6 +207,13 @@ func shapeRoot(r *rand.Rand, doc string) (string, string) {
 	case "no-root-issuer":
 		if issOpen >= 0 && issClose > issOpen {
 			rest = rest[:issOpen] + rest[issClose+len("</saml:Issuer>"):]
+		}
+	case "empty-issuer", "empty-issuer-selfclosed", "empty-issuer-blank":
+		// a root Issuer element that is present but says nothing (acceptable to an SP with no configured IdP issuer),
+		// while the assertion inside names its issuer
+		if issOpen >= 0 && issClose > issOpen {
+			repl := map[string]string{"empty-issuer": "<saml:Issuer></saml:Issuer>", "empty-issuer-selfclosed": "<saml:Issuer/>", "empty-issuer-blank": "<saml:Issuer> \n</saml:Issuer>"}[k]
+			rest = rest[:issOpen] + repl + rest[issClose+len("</saml:Issuer>"):]
 		}
 	case "issuer-comment":
 		rest = strings.Replace(rest, "<saml:Issuer>https://idp", "<saml:Issuer>https://<!-- evil.example -->idp", 1)
@@ -313,7 +356,7 @@ func runC20(c *mon.Ctx) {
 		}
 		cs.Input([]byte(doc))
 		sp, _, _ := NewSP(w.Now, signer)
-		if nonASCII {
+		if nonASCII || strings.Contains(cs.Description(), "shape=empty-issuer") {
 			sp.IdentityProviderIssuer = ""
 		}
 		sp.SkipSignatureValidation = skip || logout && r.IntN(2) == 0
